@@ -47,7 +47,3 @@ func registerMisc(vm *VM) {
 	}
 }
 
-func (vm *VM) symRegexSubmatch(re *regexp.Regexp, s Value) Value {
-	vmErr("regexp match on symbolic string %s not modelled yet", describe(s))
-	return nil
-}
